@@ -11,6 +11,7 @@ from groupby_lib.util import (
     _convert_timestamp_to_tz_unaware,
     _val_to_numpy,
     get_array_name,
+    is_null,
     is_pyarrow_backed,
     pandas_type_from_array,
     parallel_map,
@@ -50,8 +51,18 @@ def _monotonic_factorization(arr_list, total_len):
     codes = np.empty(total_len, dtype=np.uint32)
     labels = np.empty(total_len, dtype=arr_list[0].dtype)
 
+    if total_len == 0:
+        return 0, codes, labels[:0]
+
     arr_num = 0
     arr = arr_list[arr_num]
+    while len(arr) == 0:  # skip empty chunks
+        arr_num += 1
+        arr = arr_list[arr_num]
+
+    if is_null(arr[0]):
+        # null keys belong to no group, so they cannot be part of a monotonic run
+        return 0, codes, labels[:0]
 
     labels[0] = arr[0]
     n_labels = 1
@@ -61,13 +72,13 @@ def _monotonic_factorization(arr_list, total_len):
     cur_arr_pos = 0
     for i in range(1, total_len):
         cur_arr_pos += 1
-        if cur_arr_pos == len(arr):
+        while cur_arr_pos == len(arr):
             arr_num += 1
             arr = arr_list[arr_num]
             cur_arr_pos = 0
 
         x = arr[cur_arr_pos]
-        if x < prev:
+        if x < prev or is_null(x):
             return i, codes, labels[:n_labels]
         elif x > prev:
             labels[n_labels] = x
@@ -144,6 +155,9 @@ def monotonic_factorization(arr: ArrayType1D) -> Tuple[int, np.ndarray, pd.Index
         arr, pd_type = _convert_timestamp_to_tz_unaware(arr)
 
     arr_list = _val_to_numpy(arr, as_list=True)
+    if arr_list[0].dtype.kind in "mM":
+        # integer views, so that NaT is recognised as null
+        arr_list = type(arr_list)([a.view("int64") for a in arr_list])
 
     total_len = len(arr)
     cutoff, codes, labels = _monotonic_factorization(arr_list, total_len)
